@@ -20,7 +20,7 @@ CONSTANTS MaxObs
 L0 == [obs |-> 0, rcache |-> 0, bwRecv |-> 0, bwSend |-> 0]
 Kinds == {"plainOK", "plainSepCon", "plainBadToken", "plainCtxWrite", "plainCancel", "plainExpire", "plainRst", "dupToken",
           "bwUpOK", "bwUpCancel", "bwUpRefused", "bwDownOK", "bwDownAbandon",
-          "obsOK", "obsCancel", "obsCancelRefused", "obsCancelGiveUp", "obsFail", "obsSilentCancel", "obsAckedCancel", "obsNotifyEtag",
+          "obsOK", "obsCancel", "obsCancelRefused", "obsCancelGiveUp", "obsFail", "obsSilentCancel", "obsAckedCancel", "obsNotifyEtag", "obsNoObs205", "obsNoObs203",
           "pingOK", "pingCancel", "pingAsyncOK", "pingForget", "pingWriteFail", "oneWay",
           "srvReq", "srvReqNon", "srvReqNoResp", "srvReqHijack", "srvBwUpAbandon", "srvBwDownAbandon", "srvBwDownRetry", "srvBwDownBadCont",
           "tickEarly", "tickBw", "tickLate"}
